@@ -170,6 +170,8 @@ def _expand(node):
         return ("cat", [_expand(c) for c in node[1]])
     if k == "alt":
         return ("alt", [_expand(c) for c in node[1]])
+    if k in ("star", "opt"):
+        return (k, _expand(node[1]))
     if k == "rep":
         _, body, lo, hi = node
         body = _expand(body)
@@ -446,3 +448,58 @@ def findall_spans(node, s: str) -> List[str]:
         out.append(s[i:e])
         i = e if e > i else i + 1
     return [t for t in out]
+
+
+# ---- ambiguity of iterations (catastrophic backtracking) -----------------------------------
+def _intersect_witness(a: DFA, b: DFA, nonempty=True, maxlen=64) -> Optional[str]:
+    """A word accepted by both automata (non-empty when asked), breadth first."""
+    start = (0, 0)
+    seen = {start}
+    q = deque([(start, "")])
+    while q:
+        (sa, sb), w = q.popleft()
+        if sa in a.accept and sb in b.accept and (w or not nonempty):
+            return w
+        if len(w) >= maxlen:
+            continue
+        for ch in a.alphabet:
+            ta, tb = a.trans[sa].get(ch), b.trans[sb].get(ch)
+            if ta is None or tb is None:
+                continue
+            if (ta, tb) not in seen:
+                seen.add((ta, tb))
+                q.append(((ta, tb), w + ch))
+    return None
+
+
+def ambiguous_iterations(pattern: str, flags: int = 0) -> List[Tuple[str, str]]:
+    """Loops X* / X+ of the pattern whose body X can match one string both as a single iteration and as several
+    (L(X) and L(X X+) intersect).  A backtracking matcher (CPython's re) tries exponentially many splits of such a
+    string before it gives up on a non-matching continuation.  Returns [(witness, description)]."""
+    node, info = parse(pattern, flags)
+    node = _expand(node)
+    out = []
+    alpha = [chr(i) for i in range(32, 127)] + ["\t", "\n", "é"]
+
+    def walk(n):
+        k = n[0]
+        if k == "star":
+            body = n[1]
+            try:
+                one = DFA.from_glushkov(Glushkov(body), alpha)
+                many = DFA.from_glushkov(Glushkov(("cat", [body, body, ("star", body)])), alpha)
+            except RegexUnsupported:
+                one = many = None
+            if one is not None:
+                w = _intersect_witness(one, many)
+                if w is not None:
+                    out.append((w, f"an iteration body that matches {w!r} both in one and in several rounds"))
+            walk(body)
+        elif k in ("cat", "alt"):
+            for c in n[1]:
+                walk(c)
+        elif k == "opt":
+            walk(n[1])
+
+    walk(node)
+    return out
